@@ -228,6 +228,9 @@ pub struct RState {
     pub stray_next: Option<u8>,
     /// the next pass to a ring member is accepted by it, then it dies
     pub lose_next: bool,
+    /// a ring member has passed the token to the station and supervises the pass like a conforming
+    /// station: (passing member, time of the next repeat in µs, repeats so far)
+    pub handover: Option<(u8, i64, u8)>,
     pub visits: u32,
     pub c12: C12Mon,
     pub c15: C15Mon,
@@ -268,6 +271,7 @@ impl RState {
             joins: 0,
             stray_next: None,
             lose_next: false,
+            handover: None,
             visits: 0,
             c12: C12Mon { since_polled: vec![0; n_gap], ..Default::default() },
             c15: C15Mon { log_seen: vec![0; cfg.scripts.len()], ..Default::default() },
@@ -355,8 +359,29 @@ impl RState {
             }
             if let rc::RDec::Frame(f, _) = rc::decode(&bytes) {
                 self.on_env_frame(&f);
+                if let rc::RFrame::Token { da, sa } = &f {
+                    if *da == self.cfg.ts && *sa != self.cfg.ts && self.members.contains(sa) {
+                        let tries = match self.handover {
+                            Some((m, _, n)) if m == *sa => n,
+                            _ => 0,
+                        };
+                        let end = t + self.bus.bits_us_floor(33) + 1;
+                        self.handover = Some((*sa, end + self.slot_us + self.p_us, tries));
+                    }
+                }
             }
             self.bus.transmit(1, t, &bytes);
+        }
+        // the passing member repeats its pass (at most twice) when the station does not react
+        if let Some((m, due, n)) = self.handover {
+            if self.now >= due && self.env_queue.is_empty() {
+                if n < 2 {
+                    self.handover = Some((m, i64::MAX, n + 1));
+                    self.env_queue.push((self.now, rc::encode(&rc::token(self.cfg.ts, m))));
+                } else {
+                    self.handover = None;
+                }
+            }
         }
         self.now += self.p_us;
         let now = Instant::from_micros(self.now);
@@ -430,6 +455,10 @@ impl RState {
         };
         if self.verbose {
             println!("  {:>9} us  station: {}", tx.start_us, f.short());
+        }
+        if !f.is_response() {
+            // the station took the token
+            self.handover = None;
         }
         match &f {
             rc::RFrame::Token { da, sa } if *sa == ts => {
@@ -699,7 +728,10 @@ impl RState {
         }
         self.c12.last_pass_da = Some(da);
         let first_claim = self.c12.visits == 0 && self.cfg.members0.is_empty();
-        if da == ts && !self.c12.in_claim_scan && (first_claim || self.c12.token_lost) {
+        // a token to itself while the station believes in a successor other than itself cannot be an ordinary
+        // pass: it is a claim after the silence time-out
+        let claim_by_view = self.station.inspect_token_ring().next_station() != ts;
+        if da == ts && !self.c12.in_claim_scan && (first_claim || self.c12.token_lost || claim_by_view) {
             // claim (sent twice): the post-claim scan follows
             if self.c12.token_lost {
                 ctx().witness("c12_reclaim_after_token_loss");
@@ -941,6 +973,7 @@ impl RState {
         b.extend_from_slice(format!("{:?}{:?}", self.station.inspect_token_ring(), self.station.inspect_token_ring().verif_last_witnessed_sender()).as_bytes());
         self.bus.fingerprint_into(self.now, &mut b);
         b.extend_from_slice(format!("{:?}|{:?}|{:?}|{}|{}|{}", self.stray_next, self.members, self.pending.as_ref().map(|p| (p.addr, p.is_status, p.from_app, self.bus.scaled(self.now) - p.req_end)), self.joins, self.visits.min(self.cfg.max_visits), self.finished).as_bytes());
+        b.extend_from_slice(format!("{}|{:?}", self.lose_next, self.handover.map(|(m, due, n)| (m, if due == i64::MAX { i64::MAX } else { due - self.now }, n))).as_bytes());
         for (t, q) in &self.env_queue {
             b.extend_from_slice(&(t - self.now).to_le_bytes());
             b.extend_from_slice(q);
@@ -953,7 +986,7 @@ impl RState {
             RMon::C12 => b.extend_from_slice(format!("{:?}", self.c12).as_bytes()),
             RMon::C15 => {
                 let m = &self.c15;
-                b.extend_from_slice(format!("{}{:?}{:?}{:?}{:?}{:?}", m.holding, m.outstanding, m.asked_this_visit, m.declined_this_visit, m.last_call_app, (m.expected_reply_kind, m.disrupted, m.own_tokens.min(4))).as_bytes());
+                b.extend_from_slice(format!("{}{:?}{:?}{:?}{:?}{:?}", m.holding, m.outstanding, m.asked_this_visit, m.declined_this_visit, m.last_call_app, (m.expected_reply_kind, m.disrupted, m.own_tokens.min(4), m.hp_sent_this_visit, m.normal_call_this_visit)).as_bytes());
             }
         }
         fnv64(&b)
